@@ -342,6 +342,14 @@ def _extent(t, isbegin):
     return None
 
 
+def is_view(e):
+    """an event that builds an owning view over storage: Vec::from_raw_parts(ptr, len, cap) or a view struct {ptr, len}"""
+    if e.kind == "view":
+        return True
+    return e.kind == "call" and e.callee is not None and not e.callee.indirect and e.callee.key.endswith("Vec::from_raw_parts") \
+        and len(e.args) == 3
+
+
 def rule_amt(env, shared):
     """AMT (M1): the positions a chunk pull touches lie inside the interval it reserved: the extent is
     min(begin (+) n, L) built from the same n the reservation used (clamped to LEN or not)."""
@@ -370,7 +378,7 @@ def rule_amt(env, shared):
         # extents: slice range ends, alias view lengths, range chunk ends
         exts = []
         for e in u.events:
-            if e.kind != "call":
+            if e.kind != "call" and not is_view(e):
                 continue
             mdl = e.info.get("model")
             a = e.args
@@ -378,7 +386,7 @@ def rule_amt(env, shared):
                 rg = unref(a[1])
                 if rg[0] == "agg" and rg[1].endswith("Range::Range"):
                     exts.append((e, "slice range end", rg[2][1], None))
-            elif e.callee.key.endswith("Vec::from_raw_parts") and len(a) == 3:
+            elif is_view(e):
                 exts.append((e, "alias view length", a[1], "len"))
             elif mdl == "Iterator::map" and a and any("ops::Range<" in f["ty"]["s"] for f in
                                                       env.R.impl[m.base_impl(u.world)]["fields"]):
@@ -560,7 +568,7 @@ def rule_clamp(env, shared):
         isbegin = begin_forms(ev, u.ctx, r, None)
         key0 = "CLAMP|%s" % u.label
         for e in u.events:
-            if e.kind != "call":
+            if e.kind != "call" and not is_view(e):
                 continue
             mdl = e.info.get("model")
             a = e.args
@@ -617,7 +625,7 @@ def rule_clamp(env, shared):
                         out.append(Ob("CLAMP", k, "viol", e.loc(),
                                       "cannot establish begin <= LEN for the chunk view of %s (begin %s)" % (
                                           u.world["name"], fmt(off)[:120])))
-            elif e.callee.key.endswith("Vec::from_raw_parts") and len(a) == 3:
+            elif is_view(e):
                 k = key0 + "|view:begin+len<=LEN"
                 if any(o.key == k for o in out):
                     continue
@@ -766,7 +774,7 @@ def rule_nonempty(env, shared):
                     # the actual extent end(s) of the access
                     ends = []
                     for e in u.events:
-                        if e.kind != "call":
+                        if e.kind != "call" and not is_view(e):
                             continue
                         mdl = e.info.get("model")
                         a = e.args
@@ -774,7 +782,7 @@ def rule_nonempty(env, shared):
                             rg = unref(a[1])
                             if rg[0] == "agg":
                                 ends.append(m.canon(unref(rg[2][1])))
-                        elif e.callee.key.endswith("Vec::from_raw_parts") and len(a) == 3:
+                        elif is_view(e):
                             ln = m.canon(unref(a[1]))
                             if ln[0] == "bin" and ln[1] == "Sub":
                                 ends.append(ln[2])
@@ -829,12 +837,12 @@ def rule_nonempty(env, shared):
             rc = m.canon(r)
             found = False
             for e in u.events:
-                if e.kind != "call":
+                if e.kind != "call" and not is_view(e):
                     continue
                 mdl = e.info.get("model")
                 a = e.args
                 is_ext = (mdl == "index" and len(a) == 2 and R.classify(a[0])[1] in R.impl) or \
-                    e.callee.key.endswith("Vec::from_raw_parts") or \
+                    is_view(e) or \
                     (mdl == "Iterator::map" and a and unref(a[0])[0] == "agg" and unref(a[0])[1].endswith("Range::Range"))
                 if not is_ext:
                     continue
@@ -1152,7 +1160,7 @@ def rule_complete(env, shared):
         key = "COMPLETE|%s|clamp=LEN" % u.label
         found = False
         for e in u.events:
-            if e.kind != "call":
+            if e.kind != "call" and not is_view(e):
                 continue
             mdl = e.info.get("model")
             a = e.args
@@ -1166,7 +1174,7 @@ def rule_complete(env, shared):
                     if ex:
                         clamp = ex[1]
                         kindx = "idx"
-            elif e.callee.key.endswith("Vec::from_raw_parts") and len(a) == 3:
+            elif is_view(e):
                 ln = unref(a[1])
                 if ln[0] == "bin" and ln[1] == "Sub":
                     ex = _extent(unref(ln[2]), isbegin)
